@@ -213,3 +213,612 @@ Proof.
   simpl in *. inversion E1; inversion E2; subst. subst.
   rewrite (F _ _ _ I1 I2). reflexivity.
 Qed.
+
+(* ---------- norm_neg ---------- *)
+Lemma A3_norm_neg_nonneg i n j : norm_neg i n = Ok j -> 0 <= j.
+Proof.
+  unfold norm_neg. destruct (i <? 0) eqn:E.
+  - destruct n as [m|e]; simpl; [|discriminate].
+    destruct (i + Z.of_nat m <? 0) eqn:E2; [discriminate|]. intros H; inversion H; lia.
+  - intros H; inversion H; lia.
+Qed.
+
+Lemma A3_bind_norm_ext {B} i n (f g : Z -> res B) :
+  (forall j, 0 <= j -> f j = g j) ->
+  (do j <- norm_neg i n; f j) = (do j <- norm_neg i n; g j).
+Proof.
+  intros H. destruct (norm_neg i n) eqn:E; simpl; auto.
+  apply H. eapply A3_norm_neg_nonneg; eauto.
+Qed.
+
+Lemma A3_py_nth_norm2 {A} (l : list A) (i : Z) :
+  py_nth l i = do j <- norm_neg i (Ok (length l)); py_nth l j.
+Proof.
+  rewrite A3_py_nth_norm. apply A3_bind_norm_ext. intros j Hj.
+  destruct (Z.of_nat (length l) <=? j) eqn:E; auto.
+  symmetry. apply A3_py_nth_oob. lia.
+Qed.
+
+(* ================================================================== DConcat *)
+Definition A3_cwalk := fix walk (l : list ds) (j : Z) : res val :=
+  match l with
+  | [] => Err (lib EIndex)
+  | d :: t => do m <- len_ d;
+              if Z.of_nat m <=? j then walk t (j - Z.of_nat m) else get_i d j
+  end.
+Lemma A3_get_i_concat l i :
+  get_i (DConcat l) i = do j <- norm_neg i (sum_res (map len_ l)); A3_cwalk l j.
+Proof. reflexivity. Qed.
+
+Definition A3_kwalk (k : key) := fix walk (l : list ds) : res val :=
+  match l with
+  | [] => Err (lib EKey)
+  | d :: t => do ks <- keys_ d; if inb k ks then get_k d k else walk t
+  end.
+Lemma A3_get_k_concat l k :
+  get_k (DConcat l) k = do _u <- keys_ (DConcat l); A3_kwalk k l.
+Proof. reflexivity. Qed.
+
+Lemma A3_cwalk_ok (l : list ds) (ts : list tab) :
+  Forall2 (fun d t => len_ d = Ok (length t) /\ forall i, get_i d i = py_nth (vals t) i) l ts ->
+  forall j, 0 <= j -> A3_cwalk l j = py_nth (vals (concat ts)) j.
+Proof.
+  induction 1 as [|d t l ts [HL HG] HF IH]; intros j Hj; simpl.
+  - symmetry. apply A3_py_nth_oob. simpl. lia.
+  - rewrite HL. simpl. unfold vals. rewrite map_app. fold (vals t). fold (vals (concat ts)).
+    destruct (Z.of_nat (length t) <=? j) eqn:E.
+    + rewrite IH by lia. rewrite A3_py_nth_app_r; rewrite A3_length_vals; [reflexivity|lia].
+    + rewrite HG. rewrite A3_py_nth_app_l; [reflexivity|]. rewrite A3_length_vals. lia.
+Qed.
+
+Lemma A3_concat_sum (l : list ds) (ts : list tab) :
+  Forall2 (fun d t => len_ d = Ok (length t)) l ts ->
+  sum_res (map len_ l) = Ok (length (concat ts)).
+Proof.
+  induction 1 as [|d t l ts HL HF IH]; simpl; auto.
+  rewrite HL, IH. simpl. rewrite app_length. reflexivity.
+Qed.
+
+Lemma A3_concat_len (l : list ds) (ts : list tab) :
+  Forall2 (fun d t => forall m, len_ d = Ok m -> m = length t) l ts ->
+  forall m, sum_res (map len_ l) = Ok m -> m = length (concat ts).
+Proof.
+  induction 1 as [|d t l ts HL HF IH]; simpl; intros m Hm.
+  - inversion Hm. reflexivity.
+  - destruct (len_ d) as [a|] eqn:E1; simpl in Hm; [|discriminate].
+    destruct (sum_res (map len_ l)) as [b|] eqn:E2; simpl in Hm; [|discriminate].
+    inversion Hm. rewrite app_length. rewrite (HL a eq_refl), (IH b eq_refl). reflexivity.
+Qed.
+
+Lemma A3_Forall2_impl {A B} (R S : A -> B -> Prop) l r :
+  (forall a b, R a b -> S a b) -> Forall2 R l r -> Forall2 S l r.
+Proof. intros H. induction 1; constructor; auto. Qed.
+
+Lemma A3_Forall2_idx (l : list ds) (ts : list tab) :
+  Forall2 agrees l ts -> forallb indexable l = true -> forallb ikeyed l = true ->
+  Forall2 (fun d t => len_ d = Ok (length t) /\ forall i, get_i d i = py_nth (vals t) i) l ts.
+Proof.
+  induction 1 as [|d t l ts HA HF IH]; simpl; intros H1 H2; constructor.
+  - apply andb_true_iff in H1 as [H1 _]. apply andb_true_iff in H2 as [H2 _].
+    apply (ag_idx _ _ HA); auto.
+  - apply andb_true_iff in H1 as [_ H1]. apply andb_true_iff in H2 as [_ H2]. auto.
+Qed.
+
+Lemma A3_concat_keys (l : list ds) (ts : list tab) :
+  Forall2 agrees l ts -> forall kss, mapM keys_ l = Ok kss ->
+  kss = map (map fst) ts /\ forallb keyedb l = true /\ forallb indexable l = true /\
+  forallb ikeyed l = true.
+Proof.
+  induction 1 as [|d t l ts HA HF IH]; simpl; intros kss H.
+  - inversion H. auto.
+  - destruct (keys_ d) as [ks0|] eqn:E1; simpl in H; [|discriminate].
+    fold (mapM keys_ l) in H.
+    destruct (mapM keys_ l) as [kr|] eqn:E2; simpl in H; [|discriminate].
+    inversion H; subst.
+    destruct (ag_keys _ _ HA _ E1) as (K1 & K2 & K3 & K4 & K5).
+    destruct (IH _ eq_refl) as (I1 & I2 & I3 & I4).
+    rewrite K1, K4, K5, I2, I3, I4. subst. auto.
+Qed.
+
+Lemma A3_kwalk_ok k (l : list ds) (ts : list tab) :
+  Forall2 agrees l ts -> forall kss, mapM keys_ l = Ok kss ->
+  match assoc k (concat ts) with
+  | Some v => A3_kwalk k l = Ok v
+  | None => exists e, A3_kwalk k l = Err e
+  end.
+Proof.
+  induction 1 as [|d t l ts HA HF IH]; simpl; intros kss H.
+  - unfold assoc. simpl. eauto.
+  - destruct (keys_ d) as [ks0|] eqn:E1; simpl in H; [|discriminate].
+    fold (mapM keys_ l) in H.
+    destruct (mapM keys_ l) as [kr|] eqn:E2; simpl in H; [|discriminate].
+    destruct (ag_keys _ _ HA _ E1) as (K1 & K2 & _).
+    pose proof (ag_getk _ _ HA _ E1 k) as G.
+    rewrite A3_assoc_app. subst ks0. cbn [bind].
+    destruct (inb k (map fst t)) eqn:EI.
+    + destruct (A3_assoc_in _ _ EI) as [v Ev]. rewrite Ev in *. exact G.
+    + rewrite (A3_assoc_notin _ _ EI). apply (IH _ eq_refl).
+Qed.
+
+Lemma stage_concat l : Forall stage_ok l -> stage_ok (DConcat l).
+Proof.
+  intros HF HW t HT. simpl in HW, HT.
+  destruct (omapM tbl l) as [ts|] eqn:ET; simpl in HT; [|discriminate].
+  inversion HT; subst t; clear HT.
+  pose proof (A3_parts_agree _ _ HF HW ET) as HA.
+  constructor.
+  - (* iter *)
+    simpl. rewrite A3_vals_concat, <- A3_concat_traces_End. f_equal.
+    clear -HA. induction HA; simpl; auto. rewrite (ag_iter _ _ H). f_equal. exact IHHA.
+  - (* iterk *)
+    simpl. intros HK. rewrite A3_pairs_concat, <- A3_concat_traces_End. f_equal.
+    clear -HA HK. induction HA; simpl; auto. simpl in HK. apply andb_true_iff in HK as [K1 K2].
+    rewrite (ag_iterk _ _ H K1). rewrite IHHA; auto.
+  - (* len *)
+    simpl. apply A3_concat_len. eapply A3_Forall2_impl; [|exact HA].
+    intros a b Hab. apply (ag_len _ _ Hab).
+  - (* idx *)
+    intros HI HK. simpl in HI, HK.
+    pose proof (A3_Forall2_idx _ _ HA HI HK) as HX.
+    assert (HS : sum_res (map len_ l) = Ok (length (concat ts))).
+    { apply A3_concat_sum. eapply A3_Forall2_impl; [|exact HX]. intros a b [H _]; exact H. }
+    split; [exact HS|].
+    intros i. rewrite A3_get_i_concat, HS.
+    rewrite (A3_py_nth_norm2 (vals (concat ts))). rewrite A3_length_vals.
+    apply A3_bind_norm_ext. intros j Hj. apply A3_cwalk_ok; auto.
+  - (* keys *)
+    simpl. intros ks HKs.
+    destruct (mapM keys_ l) as [kss|] eqn:EM; simpl in HKs; [|discriminate].
+    unfold unique_keys in HKs. destruct (nodupb (concat kss)) eqn:EN; [|discriminate].
+    inversion HKs; subst ks; clear HKs.
+    destruct (A3_concat_keys _ _ HA _ EM) as (K1 & K2 & K3 & K4).
+    assert (HC : concat kss = map fst (concat ts)).
+    { subst kss. symmetry. apply concat_map. }
+    repeat split; auto.
+    apply A3_NoDup_functional. rewrite <- HC. apply A3_nodupb_NoDup. exact EN.
+  - (* getk *)
+    intros ks HKs k. rewrite A3_get_k_concat, HKs. simpl bind.
+    simpl in HKs.
+    destruct (mapM keys_ l) as [kss|] eqn:EM; simpl in HKs; [|discriminate].
+    eapply A3_kwalk_ok; eauto.
+Qed.
+
+(* ================================================================== DUnbatch *)
+Lemma A3_unbatch_until_ok l bs :
+  omapM seq_elems l = Some bs -> unbatch_until l = (concat bs, End).
+Proof.
+  revert bs. induction l as [|a l IH]; simpl; intros bs H.
+  - inversion H. reflexivity.
+  - destruct a; simpl in H; try discriminate;
+      destruct (omapM seq_elems l) eqn:E; simpl in H; try discriminate;
+      inversion H; subst; rewrite (IH _ eq_refl); reflexivity.
+Qed.
+
+Lemma stage_unbatch d : stage_ok d -> stage_ok (DUnbatch d).
+Proof.
+  intros HS HW t HT. simpl in HW, HT.
+  destruct (tbl d) as [t0|] eqn:ET; simpl in HT; [|discriminate].
+  destruct (omapM seq_elems (vals t0)) as [bs|] eqn:EB; simpl in HT; [|discriminate].
+  inversion HT; subst t; clear HT.
+  pose proof (HS HW t0 ET) as HA.
+  constructor; simpl; try discriminate.
+  rewrite (ag_iter _ _ HA). simpl. rewrite (A3_unbatch_until_ok _ _ EB).
+  unfold then_end. simpl. rewrite A3_vals_nokey. reflexivity.
+Qed.
+
+(* ================================================================== DItems *)
+Lemma A3_index_of_assoc k (t : tab) :
+  match index_of k (map fst t) with
+  | Some j => exists v, nth_error t j = Some (k, v) /\ assoc k t = Some v
+  | None => assoc k t = None
+  end.
+Proof.
+  induction t as [|[k0 v0] t IH]; simpl; auto.
+  unfold assoc. simpl. destruct (String.eqb k k0) eqn:E.
+  - apply String.eqb_eq in E. subst. exists v0. auto.
+  - fold (assoc k t). destruct (index_of k (map fst t)); simpl; auto.
+Qed.
+
+Lemma A3_assoc_map (g : key -> val -> val) k (t : tab) :
+  assoc k (map (fun kv => (fst kv, g (fst kv) (snd kv))) t) = option_map (g k) (assoc k t).
+Proof.
+  unfold assoc. induction t as [|[k0 v0] t IH]; simpl; auto.
+  destruct (String.eqb k k0) eqn:E; simpl; auto.
+  apply String.eqb_eq in E. subst. reflexivity.
+Qed.
+
+Lemma A3_rekey_pairs (t : tab) :
+  map rekey (pairs t) = pairs (map (fun kv => (fst kv, pair_of (fst kv) (snd kv))) t).
+Proof. unfold pairs. rewrite !map_map. reflexivity. Qed.
+
+Lemma stage_items d : stage_ok d -> stage_ok (DItems d).
+Proof.
+  intros HS HW t HT. simpl in HW, HT.
+  destruct (keyedb d) eqn:EK; [|discriminate].
+  destruct (tbl d) as [t0|] eqn:ET; simpl in HT; [|discriminate].
+  inversion HT; subst t; clear HT.
+  pose proof (HS HW t0 ET) as HA.
+  assert (HV : vals (map (fun kv => (fst kv, pair_of (fst kv) (snd kv))) t0) = pairs t0).
+  { unfold vals, pairs. rewrite map_map. reflexivity. }
+  assert (HK : map fst (map (fun kv : key * val => (fst kv, pair_of (fst kv) (snd kv))) t0) = map fst t0).
+  { rewrite map_map. reflexivity. }
+  constructor.
+  - simpl. rewrite (ag_iterk _ _ HA EK). unfold conv_items. simpl. rewrite HV. reflexivity.
+  - simpl. intros _. rewrite (ag_iterk _ _ HA EK). unfold conv_items. simpl.
+    rewrite A3_rekey_pairs. reflexivity.
+  - simpl. intros m Hm. rewrite map_length. apply (ag_len _ _ HA _ Hm).
+  - intros HI HKY. simpl in HI, HKY. apply andb_true_iff in HKY as [HKO HKY].
+    destruct (ag_idx _ _ HA HI HKY) as [HL HG].
+    split.
+    + simpl. rewrite map_length. exact HL.
+    + intros i. simpl. unfold keys_ok in HKO.
+      destruct (keys_ d) as [ks|] eqn:EKS; [|discriminate].
+      destruct (ag_keys _ _ HA _ EKS) as (_ & K2 & _). subst ks. simpl.
+      rewrite HG, HV. unfold vals, pairs. rewrite !A3_py_nth_map.
+      destruct (py_nth t0 i); reflexivity.
+  - simpl. intros ks HKs.
+    destruct (ag_keys _ _ HA _ HKs) as (K1 & K2 & K3 & K4 & K5).
+    repeat split; auto.
+    + rewrite HK. exact K2.
+    + apply (A3_functional_map pair_of). exact K3.
+    + unfold keys_ok. rewrite HKs, K5. reflexivity.
+  - intros ks HKs k. simpl in HKs.
+    destruct (ag_keys _ _ HA _ HKs) as (K1 & K2 & K3 & K4 & K5).
+    destruct (ag_idx _ _ HA K4 K5) as [HL HG].
+    rewrite (A3_assoc_map pair_of). simpl. rewrite HKs. simpl. subst ks.
+    pose proof (A3_index_of_assoc k t0) as HX.
+    destruct (index_of k (map fst t0)) as [j|].
+    + destruct HX as [v [HN HAs]]. rewrite HAs. simpl.
+      rewrite HG, A3_py_nth_nat. unfold vals. rewrite nth_error_map, HN. reflexivity.
+    + rewrite HX. simpl. eauto.
+Qed.
+
+(* ================================================================== DZip *)
+Lemma A3_py_nth_cases {A} (l : list A) (i : Z) (d : A) :
+  py_nth l i =
+  let n := Z.of_nat (length l) in
+  let j := if i <? 0 then i + n else i in
+  if (j <? 0) || (n <=? j) then Err (lib EIndex) else Ok (nth (Z.to_nat j) l d).
+Proof.
+  unfold py_nth. cbv zeta.
+  destruct ((_ <? 0) || _) eqn:E; auto.
+  rewrite (nth_error_nth' l d); [reflexivity|].
+  destruct (i <? 0) eqn:E1; lia.
+Qed.
+
+Lemma A3_fold_min n xs : Forall (fun x => x = n) xs -> fold_right Nat.min n xs = n.
+Proof. induction 1; simpl; auto. subst. rewrite IHForall. apply Nat.min_id. Qed.
+
+Lemma A3_zip_rows_cons t0 TS :
+  zip_rows (t0 :: TS) =
+  let ts := t0 :: TS in
+  let r := fold_right Nat.min (length (fst t0)) (map (fun t => length (fst t)) ts) in
+  (map (fun j => VTup (map (fun t => nth j (fst t) VNone) ts)) (seq 0 r),
+   match find (fun t => (length (fst t) =? r)%nat) ts with Some t => snd t | None => End end).
+Proof. reflexivity. Qed.
+
+Lemma A3_zip_rows_ok (cols : list (list val)) n :
+  cols <> [] -> Forall (fun c => length c = n) cols ->
+  zip_rows (map (fun c => (c, End)) cols) = (transpose n cols, End).
+Proof.
+  destruct cols as [|c0 cs]; [congruence|]. intros _ HF.
+  assert (HR : fold_right Nat.min (length c0)
+                 (map (fun t : list val * ending => length (fst t)) (map (fun c => (c, End)) (c0 :: cs))) = n).
+  { rewrite map_map. inversion HF; subst. apply A3_fold_min.
+    apply Forall_forall. intros x Hx. apply in_map_iff in Hx as [c [Hc1 Hc2]]. simpl in Hc1.
+    subst x. rewrite Forall_forall in HF. apply HF. exact Hc2. }
+  change (map (fun c => (c, End)) (c0 :: cs)) with ((c0, End) :: map (fun c : list val => (c, End)) cs) in *.
+  rewrite A3_zip_rows_cons. cbv zeta. cbn [fst] in HR |- *.
+  match goal with |- context [seq 0 ?r] => set (R := r) end.
+  assert (HR' : R = n) by exact HR. clearbody R. subst R. clear HR.
+  inversion HF; subst. cbn [find fst snd]. rewrite Nat.eqb_refl.
+  f_equal. unfold transpose. apply map_ext. intros j. f_equal.
+  cbn [map fst]. f_equal. rewrite map_map. reflexivity.
+Qed.
+
+Definition A3_zgo (i : Z) := fix go (l : list ds) : res (list val) :=
+  match l with
+  | [] => Ok []
+  | d :: t => do v <- get_i d i; do r <- go t; Ok (v :: r)
+  end.
+Lemma A3_get_i_zip l i : get_i (DZip l) i = do vs <- A3_zgo i l; Ok (VTup vs).
+Proof. reflexivity. Qed.
+
+Lemma A3_zgo_ok i n (l : list ds) (ts : list tab) :
+  Forall2 (fun d t => len_ d = Ok (length t) /\ forall i, get_i d i = py_nth (vals t) i) l ts ->
+  Forall (fun t => length t = n) ts ->
+  A3_zgo i l =
+  let j := if i <? 0 then i + Z.of_nat n else i in
+  if (j <? 0) || (Z.of_nat n <=? j)
+  then (match l with [] => Ok [] | _ => Err (lib EIndex) end)
+  else Ok (map (fun t => nth (Z.to_nat j) (vals t) VNone) ts).
+Proof.
+  induction 1 as [|d t l ts [HL HG] HF IH]; intros HN; cbv zeta.
+  - simpl. destruct (_ || _); reflexivity.
+  - inversion HN; subst. cbv zeta in IH. simpl. rewrite HG.
+    rewrite (A3_py_nth_cases (vals t) i VNone). cbv zeta. rewrite A3_length_vals.
+    destruct (_ || _) eqn:E; simpl; auto.
+    rewrite (IH H2). reflexivity.
+Qed.
+
+Lemma stage_zip l : Forall stage_ok l -> stage_ok (DZip l).
+Proof.
+  intros HF HW t HT. simpl in HW, HT.
+  destruct (omapM tbl l) as [ts|] eqn:ET; simpl in HT; [|discriminate].
+  destruct (same_lengths ts) eqn:ES; [|discriminate].
+  inversion HT; subst t; clear HT.
+  pose proof (A3_parts_agree _ _ HF HW ET) as HA.
+  set (n := length (hd [] ts)).
+  assert (HNE : ts <> []) by (destruct ts; [discriminate|congruence]).
+  assert (HN : Forall (fun t : tab => length t = n) ts).
+  { destruct ts as [|t0 r]; [congruence|]. simpl in ES. subst n. simpl.
+    constructor; auto. rewrite forallb_forall in ES. apply Forall_forall.
+    intros x Hx. apply Nat.eqb_eq. apply ES. exact Hx. }
+  assert (HLEN : length (nokey (transpose n (map vals ts))) = n).
+  { rewrite A3_length_nokey. unfold transpose. rewrite map_length, seq_length. reflexivity. }
+  constructor.
+  - simpl. rewrite A3_vals_nokey.
+    assert (HM : map (iter_ false) l = map (fun c => (c, End)) (map vals ts)).
+    { clear -HA. induction HA; simpl; auto. rewrite (ag_iter _ _ H). f_equal. exact IHHA. }
+    rewrite HM. apply A3_zip_rows_ok.
+    + destruct ts; [congruence|discriminate].
+    + apply Forall_forall. intros c Hc. apply in_map_iff in Hc as [t [Ht1 Ht2]]. subst c.
+      rewrite A3_length_vals. rewrite Forall_forall in HN. auto.
+  - simpl. discriminate.
+  - intros m Hm. rewrite HLEN. simpl in Hm.
+    destruct HA as [|d0 t0 l' ts' HA0 HA']; [exfalso; apply HNE; reflexivity|].
+    inversion HN; subst. rewrite <- H1. apply (ag_len _ _ HA0 _ Hm).
+  - intros HI HK. simpl in HI, HK.
+    pose proof (A3_Forall2_idx _ _ HA HI HK) as HX.
+    rewrite HLEN. split.
+    + destruct HX as [|d0 t0 l' ts' [HL0 _] HX']; [exfalso; apply HNE; reflexivity|].
+      simpl. inversion HN; subst. rewrite <- H1. exact HL0.
+    + intros i. rewrite A3_get_i_zip, (A3_zgo_ok i n _ _ HX HN). cbv zeta.
+      rewrite A3_vals_nokey. unfold transpose. rewrite A3_py_nth_map.
+      rewrite (A3_py_nth_cases (seq 0 n) i 0%nat). cbv zeta. rewrite seq_length.
+      destruct (_ || _) eqn:E.
+      * destruct l; [|reflexivity]. exfalso. apply HNE. inversion HX. reflexivity.
+      * simpl. rewrite seq_nth by (destruct (i <? 0); lia). simpl.
+        rewrite map_map. reflexivity.
+  - simpl. discriminate.
+  - simpl. discriminate.
+Qed.
+
+(* ================================================================== DBatch *)
+Lemma A3_skipn_skipn {A} a b (l : list A) : skipn a (skipn b l) = skipn (b + a) l.
+Proof.
+  revert l. induction b as [|b IH]; intros l; simpl; auto.
+  destruct l; simpl; auto. apply skipn_nil.
+Qed.
+
+Lemma A3_skipn_cons {A} (l : list A) s v :
+  nth_error l s = Some v -> skipn s l = v :: skipn (S s) l.
+Proof.
+  revert l. induction s as [|s IH]; intros l H; destruct l; simpl in *; try discriminate.
+  - inversion H. reflexivity.
+  - apply IH. exact H.
+Qed.
+
+Lemma A3_nth_error_seq nb j :
+  nth_error (seq 0 nb) j = if (j <? nb)%nat then Some j else None.
+Proof.
+  destruct (Nat.ltb_spec j nb).
+  - rewrite (nth_error_nth' _ 0%nat) by (rewrite seq_length; lia).
+    rewrite seq_nth by lia. reflexivity.
+  - apply nth_error_None. rewrite seq_length. lia.
+Qed.
+
+Definition A3_chunk (n : nat) (l : list val) (j : nat) : val := VList (firstn n (skipn (j * n) l)).
+Definition A3_nb (n : nat) (drop : bool) (m : nat) : nat :=
+  (if drop then m / n else (m + n - 1) / n)%nat.
+
+Lemma A3_ref_chunks_eq n drop l :
+  ref_chunks n drop l = map (A3_chunk n l) (seq 0 (A3_nb n drop (length l))).
+Proof. reflexivity. Qed.
+
+Lemma A3_chunks_fuel_S f n l :
+  chunks_fuel (S f) n l =
+  if (length l <? n)%nat then ([], l)
+  else let '(bs, r) := chunks_fuel f n (skipn n l) in (VList (firstn n l) :: bs, r).
+Proof. reflexivity. Qed.
+
+Lemma A3_chunks_fuel_ok n : (0 < n)%nat -> forall fuel l, (length l < fuel)%nat ->
+  chunks_fuel fuel n l =
+  (map (A3_chunk n l) (seq 0 (length l / n)), skipn ((length l / n) * n) l).
+Proof.
+  intros Hn. induction fuel as [|f IH]; intros l Hl; [lia|].
+  rewrite A3_chunks_fuel_S.
+  destruct (Nat.ltb_spec (length l) n) as [E|E].
+  - rewrite Nat.div_small by lia. reflexivity.
+  - rewrite IH by (rewrite skipn_length; lia).
+    rewrite skipn_length.
+    assert (HD : (length l / n = S ((length l - n) / n))%nat).
+    { replace (length l) with ((length l - n) + 1 * n)%nat at 1 by lia.
+      rewrite Nat.div_add by lia. lia. }
+    rewrite HD. set (q := ((length l - n) / n)%nat).
+    change (seq 0 (S q)) with (0%nat :: seq 1 q). rewrite <- seq_shift.
+    cbn [map]. rewrite map_map. f_equal.
+    + f_equal. apply map_ext. intros j. unfold A3_chunk. rewrite A3_skipn_skipn. reflexivity.
+    + rewrite A3_skipn_skipn. reflexivity.
+Qed.
+
+Lemma A3_nb_nodrop n m :
+  (0 < n)%nat ->
+  let q := (m / n)%nat in
+  ((m + n - 1) / n)%nat = if (m - q * n =? 0)%nat then q else S q.
+Proof.
+  intros Hn q. pose proof (Nat.div_mod m n ltac:(lia)) as HM.
+  pose proof (Nat.mod_upper_bound m n ltac:(lia)) as HU. fold q in HM.
+  destruct (Nat.eqb_spec (m - q * n) 0) as [E|E]; symmetry.
+  - apply (Nat.div_unique _ _ _ (n - 1)%nat); nia.
+  - apply (Nat.div_unique _ _ _ (m mod n - 1)%nat); nia.
+Qed.
+
+Lemma A3_batch_trace_ok n drop l :
+  (0 < n)%nat -> batch_trace n drop (l, End) = (ref_chunks n drop l, End).
+Proof.
+  intros Hn. unfold batch_trace. cbn [fst snd].
+  replace (Nat.max n 1) with n by lia.
+  rewrite (A3_chunks_fuel_ok n Hn) by lia.
+  f_equal. rewrite A3_ref_chunks_eq. unfold A3_nb. destruct drop.
+  - apply app_nil_r.
+  - rewrite (A3_nb_nodrop n (length l) Hn). cbv zeta.
+    set (q := (length l / n)%nat).
+    assert (HLr : length (skipn (q * n) l) = (length l - q * n)%nat) by apply skipn_length.
+    pose proof (Nat.div_mod (length l) n ltac:(lia)) as HM.
+    pose proof (Nat.mod_upper_bound (length l) n ltac:(lia)) as HU. fold q in HM.
+    destruct (Nat.eqb_spec (length l - q * n) 0) as [E|E].
+    + destruct (skipn (q * n) l); [apply app_nil_r|]. simpl in HLr. lia.
+    + rewrite seq_S, map_app. f_equal. cbn [map Nat.add]. unfold A3_chunk.
+      rewrite (firstn_all2 (n:=n)) by nia.
+      destruct (skipn (q * n) l); [simpl in HLr; lia|reflexivity].
+Qed.
+
+Lemma A3_batch_collect_ext g g' :
+  (forall i, g i = g' i) ->
+  forall k s f dr, batch_collect g s k f dr = batch_collect g' s k f dr.
+Proof.
+  intros H. induction k as [|k IH]; intros s f dr; simpl; auto.
+  rewrite H. destruct (g' s).
+  - rewrite IH. reflexivity.
+  - rewrite IH. reflexivity.
+Qed.
+
+Lemma A3_bc_S g s k f dr :
+  batch_collect g s (S k) f dr =
+  match g s with
+  | Ok v => do r <- batch_collect g (s + 1) k false dr; Ok (v :: r)
+  | Err e => if isa (ecl e) EIndex
+             then (if f || dr then Err e else batch_collect g (s + 1) k false dr)
+             else Err e
+  end.
+Proof. reflexivity. Qed.
+
+Lemma A3_bc_nodrop_rest (l : list val) : forall k s,
+  batch_collect (py_nth l) (Z.of_nat s) k false false = Ok (firstn k (skipn s l)).
+Proof.
+  induction k as [|k IH]; intros s.
+  - reflexivity.
+  - rewrite A3_bc_S, A3_py_nth_nat.
+    replace (Z.of_nat s + 1) with (Z.of_nat (S s)) by lia. rewrite IH.
+    destruct (nth_error l s) as [v|] eqn:E.
+    + rewrite (A3_skipn_cons _ _ _ E). reflexivity.
+    + apply nth_error_None in E.
+      replace (isa (ecl (lib EIndex)) EIndex) with true by reflexivity. cbn [orb].
+      rewrite !skipn_all2 by lia. rewrite !firstn_nil. reflexivity.
+Qed.
+
+Lemma A3_bc_nodrop_first (l : list val) k s :
+  (0 < k)%nat ->
+  batch_collect (py_nth l) (Z.of_nat s) k true false =
+  if (s <? length l)%nat then Ok (firstn k (skipn s l)) else Err (lib EIndex).
+Proof.
+  intros Hk. destruct k as [|k]; [lia|].
+  rewrite A3_bc_S, A3_py_nth_nat.
+  replace (Z.of_nat s + 1) with (Z.of_nat (S s)) by lia. rewrite A3_bc_nodrop_rest.
+  destruct (nth_error l s) as [v|] eqn:E.
+  - assert (s < length l)%nat by (apply nth_error_Some; congruence).
+    destruct (Nat.ltb_spec s (length l)); [|lia].
+    rewrite (A3_skipn_cons _ _ _ E). reflexivity.
+  - apply nth_error_None in E. destruct (Nat.ltb_spec s (length l)); [lia|]. reflexivity.
+Qed.
+
+Lemma A3_bc_drop (l : list val) : forall k s first,
+  batch_collect (py_nth l) (Z.of_nat s) k first true =
+  if (k =? 0)%nat || (s + k <=? length l)%nat
+  then Ok (firstn k (skipn s l)) else Err (lib EIndex).
+Proof.
+  induction k as [|k IH]; intros s first.
+  - reflexivity.
+  - rewrite A3_bc_S, A3_py_nth_nat.
+    replace (Z.of_nat s + 1) with (Z.of_nat (S s)) by lia. rewrite IH.
+    destruct (nth_error l s) as [v|] eqn:E.
+    + assert (s < length l)%nat by (apply nth_error_Some; congruence).
+      rewrite (A3_skipn_cons _ _ _ E).
+      destruct k as [|k].
+      * cbn [Nat.eqb orb bind]. destruct (Nat.leb_spec (s + 1) (length l)); [|lia]. reflexivity.
+      * cbn [Nat.eqb orb].
+        destruct (Nat.leb_spec (S s + S k) (length l)), (Nat.leb_spec (s + S (S k)) (length l));
+          try lia; reflexivity.
+    + apply nth_error_None in E. cbn [Nat.eqb orb].
+      destruct (Nat.leb_spec (s + S k) (length l)); [lia|].
+      rewrite orb_true_r. reflexivity.
+Qed.
+
+Lemma A3_nb_lt n m j drop :
+  (0 < n)%nat ->
+  (j <? A3_nb n drop m)%nat = if drop then (j * n + n <=? m)%nat else (j * n <? m)%nat.
+Proof.
+  intros Hn. unfold A3_nb. destruct drop.
+  - pose proof (Nat.mul_div_le m n ltac:(lia)) as H1.
+    destruct (Nat.ltb_spec j (m / n)), (Nat.leb_spec (j * n + n) m); auto; exfalso.
+    + assert (n * S j <= n * (m / n))%nat by (apply Nat.mul_le_mono_l; lia). nia.
+    + assert (S j <= m / n)%nat by (apply Nat.div_le_lower_bound; nia). lia.
+  - pose proof (Nat.mul_div_le (m + n - 1) n ltac:(lia)) as H1.
+    destruct (Nat.ltb_spec j ((m + n - 1) / n)), (Nat.ltb_spec (j * n) m); auto; exfalso.
+    + assert (n * S j <= n * ((m + n - 1) / n))%nat by (apply Nat.mul_le_mono_l; lia). nia.
+    + assert (S j <= (m + n - 1) / n)%nat by (apply Nat.div_le_lower_bound; nia). lia.
+Qed.
+
+Lemma A3_get_i_batch n drop d i :
+  get_i (DBatch n drop d) i =
+  do j <- norm_neg i (len_ (DBatch n drop d));
+  do b <- batch_collect (get_i d) (j * Z.of_nat n) n true drop; Ok (VList b).
+Proof. reflexivity. Qed.
+
+Lemma A3_len_batch n drop d :
+  len_ (DBatch n drop d) =
+  do m <- len_ d; if (n =? 0)%nat then Err (lib EZeroDiv) else Ok (A3_nb n drop m).
+Proof. reflexivity. Qed.
+
+Lemma A3_batch_get (l : list val) n drop j :
+  (0 < n)%nat -> 0 <= j ->
+  (do b <- batch_collect (py_nth l) (j * Z.of_nat n) n true drop; Ok (VList b)) =
+  py_nth (map (A3_chunk n l) (seq 0 (A3_nb n drop (length l)))) j.
+Proof.
+  intros Hn Hj.
+  rewrite A3_py_nth_map. rewrite (A3_py_nth_nonneg (seq _ _)) by lia.
+  rewrite A3_py_nth_nat, A3_nth_error_seq.
+  replace (j * Z.of_nat n) with (Z.of_nat (Z.to_nat j * n)) by lia.
+  set (j' := Z.to_nat j).
+  rewrite (A3_nb_lt n (length l) j' drop Hn).
+  destruct drop.
+  - rewrite A3_bc_drop.
+    destruct (Nat.eqb_spec n 0); [lia|]. cbn [orb].
+    destruct (j' * n + n <=? length l)%nat; reflexivity.
+  - rewrite A3_bc_nodrop_first by lia.
+    destruct (j' * n <? length l)%nat; reflexivity.
+Qed.
+
+Lemma stage_batch n drop d : stage_ok d -> stage_ok (DBatch n drop d).
+Proof.
+  intros HS HW t HT. simpl in HW, HT.
+  destruct (Nat.eqb_spec n 0) as [En|En]; [discriminate|].
+  destruct (tbl d) as [t0|] eqn:ET; simpl in HT; [|discriminate].
+  inversion HT; subst t; clear HT.
+  pose proof (HS HW t0 ET) as HA.
+  assert (Hn : (0 < n)%nat) by lia.
+  assert (HLEN : length (nokey (ref_chunks n drop (vals t0))) = A3_nb n drop (length t0)).
+  { rewrite A3_length_nokey, A3_ref_chunks_eq, map_length, seq_length, A3_length_vals. reflexivity. }
+  constructor.
+  - cbn [iter_]. rewrite (ag_iter _ _ HA), A3_batch_trace_ok by lia.
+    rewrite A3_vals_nokey. reflexivity.
+  - cbn [keyedb]. discriminate.
+  - intros m Hm. rewrite HLEN. rewrite A3_len_batch in Hm.
+    destruct (len_ d) as [m0|] eqn:EL; cbn [bind] in Hm; [|discriminate].
+    destruct (Nat.eqb_spec n 0); [discriminate|]. inversion Hm.
+    rewrite (ag_len _ _ HA _ EL). reflexivity.
+  - intros HI HK. cbn [indexable ikeyed] in HI, HK.
+    destruct (ag_idx _ _ HA HI HK) as [HL HG].
+    assert (HLB : len_ (DBatch n drop d) = Ok (A3_nb n drop (length t0))).
+    { rewrite A3_len_batch, HL. cbn [bind]. destruct (Nat.eqb_spec n 0); [lia|]. reflexivity. }
+    rewrite HLEN. split; [exact HLB|].
+    intros i. rewrite A3_get_i_batch, HLB, A3_vals_nokey.
+    rewrite (A3_py_nth_norm2 (ref_chunks n drop (vals t0))).
+    rewrite A3_ref_chunks_eq, map_length, seq_length, A3_length_vals.
+    apply A3_bind_norm_ext. intros j Hj.
+    rewrite (A3_batch_collect_ext _ _ HG).
+    rewrite <- (A3_length_vals t0). apply A3_batch_get; auto.
+  - cbn [keys_]. discriminate.
+  - cbn [keys_]. discriminate.
+Qed.
